@@ -3899,3 +3899,309 @@ mod tree_bins {
         assert_eq!(oops.unwrap(), "hello");
     }
 }
+
+/// Read-only inspection of a map's internal structure for the verification harness.
+#[cfg(flurry_verif)]
+pub(crate) mod inspect {
+    use super::*;
+
+    /// Red-black and traversal links of a tree node (addresses, 0 = null).
+    #[derive(Debug, Clone, Copy)]
+    pub struct TreeLinks {
+        /// parent
+        pub parent: usize,
+        /// left child
+        pub left: usize,
+        /// right child
+        pub right: usize,
+        /// previous node of the traversal list
+        pub prev: usize,
+        /// colour
+        pub red: bool,
+    }
+
+    /// One entry of a bin.
+    #[derive(Debug)]
+    pub struct NodeInfo<'g, K, V> {
+        /// address of the node
+        pub addr: usize,
+        /// stored hash
+        pub hash: u64,
+        /// stored key
+        pub key: &'g K,
+        /// stored value (None if the value pointer is null)
+        pub value: Option<&'g V>,
+        /// address of the value
+        pub value_addr: usize,
+        /// address of the next node
+        pub next: usize,
+        /// tree links, for tree nodes
+        pub tree: Option<TreeLinks>,
+    }
+
+    /// Contents of one bin.
+    #[derive(Debug)]
+    pub enum BinInfo<'g, K, V> {
+        /// null
+        Empty,
+        /// forwarding marker
+        Moved,
+        /// linked list; `locked` is the state of the head's mutex
+        List {
+            /// address of the head
+            addr: usize,
+            /// is the head's mutex held
+            locked: bool,
+            /// nodes in list order
+            nodes: Vec<NodeInfo<'g, K, V>>,
+        },
+        /// tree bin
+        Tree {
+            /// address of the bin
+            addr: usize,
+            /// is the bin's mutex held
+            locked: bool,
+            /// the read-write lock word
+            lock_state: i64,
+            /// address of the waiter handle
+            waiter: usize,
+            /// address of the root
+            root: usize,
+            /// address of the first node of the traversal list
+            first: usize,
+            /// nodes in traversal-list order
+            nodes: Vec<NodeInfo<'g, K, V>>,
+            /// addresses of the nodes reachable from the root, in order; None if the walk did not end
+            in_order: Option<Vec<usize>>,
+        },
+    }
+
+    /// One table.
+    #[derive(Debug)]
+    pub struct TableInfo<'g, K, V> {
+        /// address
+        pub addr: usize,
+        /// the table's own forwarding target
+        pub next_table: usize,
+        /// bins
+        pub bins: Vec<BinInfo<'g, K, V>>,
+    }
+
+    /// Everything reachable from the map's roots.
+    #[derive(Debug)]
+    pub struct Snapshot<'g, K, V> {
+        /// `table`
+        pub table: usize,
+        /// `next_table`
+        pub next_table: usize,
+        /// `size_ctl`
+        pub size_ctl: isize,
+        /// `transfer_index`
+        pub transfer_index: isize,
+        /// `count`
+        pub count: isize,
+        /// the current table followed by the next table (if any)
+        pub tables: Vec<TableInfo<'g, K, V>>,
+    }
+
+    /// Constants of the implementation.
+    #[derive(Debug, Clone, Copy)]
+    pub struct Consts {
+        /// MAXIMUM_CAPACITY
+        pub maximum_capacity: usize,
+        /// DEFAULT_CAPACITY
+        pub default_capacity: usize,
+        /// TREEIFY_THRESHOLD
+        pub treeify_threshold: usize,
+        /// UNTREEIFY_THRESHOLD
+        pub untreeify_threshold: usize,
+        /// MIN_TREEIFY_CAPACITY
+        pub min_treeify_capacity: usize,
+        /// MIN_TRANSFER_STRIDE
+        pub min_transfer_stride: isize,
+        /// RESIZE_STAMP_BITS
+        pub resize_stamp_bits: usize,
+        /// RESIZE_STAMP_SHIFT
+        pub resize_stamp_shift: usize,
+        /// MAX_RESIZERS
+        pub max_resizers: isize,
+        /// number of cpus used for the stride
+        pub ncpu: usize,
+    }
+
+    /// The constants the crate was compiled with.
+    pub fn consts() -> Consts {
+        Consts {
+            maximum_capacity: MAXIMUM_CAPACITY,
+            default_capacity: DEFAULT_CAPACITY,
+            treeify_threshold: TREEIFY_THRESHOLD,
+            untreeify_threshold: UNTREEIFY_THRESHOLD,
+            min_treeify_capacity: MIN_TREEIFY_CAPACITY,
+            min_transfer_stride: MIN_TRANSFER_STRIDE,
+            resize_stamp_bits: RESIZE_STAMP_BITS,
+            resize_stamp_shift: RESIZE_STAMP_SHIFT,
+            max_resizers: MAX_RESIZERS,
+            ncpu: num_cpus(),
+        }
+    }
+
+    /// `resize_stamp(n)`, unshifted.
+    pub fn resize_stamp(n: usize) -> isize {
+        HashMap::<(), (), ()>::resize_stamp(n)
+    }
+
+    /// `load_factor!(n)`.
+    pub fn load_factor(n: isize) -> isize {
+        load_factor!(n)
+    }
+
+    fn node_info<'g, K, V>(
+        addr: usize,
+        n: &'g Node<K, V>,
+        tree: Option<TreeLinks>,
+        guard: &'g Guard<'_>,
+    ) -> NodeInfo<'g, K, V> {
+        let v = n.value.load(Ordering::SeqCst, guard);
+        NodeInfo {
+            addr,
+            hash: n.hash,
+            key: &n.key,
+            // safety: as in `get`
+            value: unsafe { v.as_ref() }.map(|l| &**l),
+            value_addr: unsafe { v.as_ptr() } as usize,
+            next: unsafe { n.next.load(Ordering::SeqCst, guard).as_ptr() } as usize,
+            tree,
+        }
+    }
+
+    fn addr_of<T>(s: Shared<'_, T>) -> usize {
+        unsafe { s.as_ptr() as usize }
+    }
+
+    fn table_info<'g, K, V>(
+        t: Shared<'g, Table<K, V>>,
+        guard: &'g Guard<'_>,
+    ) -> TableInfo<'g, K, V> {
+        // safety: the caller guarantees that the table is protected by `guard`
+        let tab = unsafe { t.deref() };
+        let mut bins = Vec::with_capacity(tab.len());
+        for i in 0..tab.len() {
+            let bin = tab.bin(i, guard);
+            if bin.is_null() {
+                bins.push(BinInfo::Empty);
+                continue;
+            }
+            match **unsafe { bin.deref() } {
+                BinEntry::Moved => bins.push(BinInfo::Moved),
+                BinEntry::Node(ref head) => {
+                    let mut nodes = Vec::new();
+                    let mut p = bin;
+                    while !p.is_null() && nodes.len() < 100_000 {
+                        let Some(n) = unsafe { p.deref() }.as_node() else {
+                            break;
+                        };
+                        nodes.push(node_info(addr_of(p), n, None, guard));
+                        p = n.next.load(Ordering::SeqCst, guard);
+                    }
+                    bins.push(BinInfo::List {
+                        addr: addr_of(bin),
+                        locked: head.lock.is_locked(),
+                        nodes,
+                    });
+                }
+                BinEntry::Tree(ref tb) => {
+                    let links = |tn: &TreeNode<K, V>| TreeLinks {
+                        parent: addr_of(tn.parent.load(Ordering::SeqCst, guard)),
+                        left: addr_of(tn.left.load(Ordering::SeqCst, guard)),
+                        right: addr_of(tn.right.load(Ordering::SeqCst, guard)),
+                        prev: addr_of(tn.prev.load(Ordering::SeqCst, guard)),
+                        red: tn.red.load(Ordering::SeqCst),
+                    };
+                    let mut nodes = Vec::new();
+                    let first = tb.first.load(Ordering::SeqCst, guard);
+                    let mut p = first;
+                    while !p.is_null() && nodes.len() < 100_000 {
+                        let Some(tn) = unsafe { p.deref() }.as_tree_node() else {
+                            break;
+                        };
+                        nodes.push(node_info(addr_of(p), &tn.node, Some(links(tn)), guard));
+                        p = tn.node.next.load(Ordering::SeqCst, guard);
+                    }
+                    // in-order walk from the root with an explicit stack and a step bound
+                    let root = tb.root.load(Ordering::SeqCst, guard);
+                    let mut order = Vec::new();
+                    let mut stack = Vec::new();
+                    let mut cur = root;
+                    let mut steps = 0usize;
+                    let mut ok = true;
+                    while (!cur.is_null() || !stack.is_empty()) && ok {
+                        steps += 1;
+                        if steps > 100_000 {
+                            ok = false;
+                            break;
+                        }
+                        if !cur.is_null() {
+                            stack.push(cur);
+                            match unsafe { cur.deref() }.as_tree_node() {
+                                Some(tn) => cur = tn.left.load(Ordering::SeqCst, guard),
+                                None => ok = false,
+                            }
+                        } else {
+                            let n = stack.pop().expect("non-empty");
+                            order.push(addr_of(n));
+                            match unsafe { n.deref() }.as_tree_node() {
+                                Some(tn) => cur = tn.right.load(Ordering::SeqCst, guard),
+                                None => ok = false,
+                            }
+                        }
+                    }
+                    bins.push(BinInfo::Tree {
+                        addr: addr_of(bin),
+                        locked: tb.lock.is_locked(),
+                        lock_state: tb.lock_state.load(Ordering::SeqCst),
+                        waiter: addr_of(tb.waiter.load(Ordering::SeqCst, guard)),
+                        root: addr_of(root),
+                        first: addr_of(first),
+                        nodes,
+                        in_order: if ok { Some(order) } else { None },
+                    });
+                }
+                BinEntry::TreeNode(_) => bins.push(BinInfo::Empty),
+            }
+        }
+        TableInfo {
+            addr: addr_of(t),
+            next_table: addr_of(tab.next_table(guard)),
+            bins,
+        }
+    }
+
+    impl<K, V, S> HashMap<K, V, S> {
+        /// A snapshot of everything reachable from the map's roots. Meaningful only while no
+        /// other thread is between two of its shared-memory accesses on this map.
+        pub fn verif_snapshot<'g>(&'g self, guard: &'g Guard<'_>) -> Snapshot<'g, K, V> {
+            let table = self.table.load(Ordering::SeqCst, guard);
+            let next_table = self.next_table.load(Ordering::SeqCst, guard);
+            let mut tables = Vec::new();
+            if !table.is_null() {
+                tables.push(table_info(table, guard));
+            }
+            if !next_table.is_null() {
+                tables.push(table_info(next_table, guard));
+            }
+            Snapshot {
+                table: addr_of(table),
+                next_table: addr_of(next_table),
+                size_ctl: self.size_ctl.load(Ordering::SeqCst),
+                transfer_index: self.transfer_index.load(Ordering::SeqCst),
+                count: self.count.load(Ordering::SeqCst),
+                tables,
+            }
+        }
+
+        /// The map's collector.
+        pub fn verif_collector(&self) -> &Collector {
+            &self.collector
+        }
+    }
+}
